@@ -108,6 +108,25 @@ def gen_c01(rng, fs, i, cfg):
     files = existing_files(fs)
     have = [(f, p) for f in files for p in cooler_paths(fs, f)]
     r = rng.random()
+    if have and rng.random() < 0.07:
+        # the collection at a URI is replaced by one of exactly the same shape (same table, same
+        # number of pixels, other rows): whatever a process remembers per (path, size) is stale
+        f_, p_ = rng.choice(have)
+        node = fs.lookup(f_, p_)
+        coll = node.coll if node is not None else None
+        if isinstance(coll, Coll) and 2 <= len(coll.pixels) and coll.nbins >= 3:
+            op = coll_to_create(coll, form=rng.choice(["df", "iter"]))
+            n = coll.nbins
+            cand = [(a, b) for a in range(n) for b in range(a if coll.symmetric else 0, n)]
+            k = len(coll.pixels)
+            if k < len(cand):
+                new = sorted(rng.sample(cand, k))
+                rec = op["chunks"][0]
+                if new != list(zip(rec["bin1_id"], rec["bin2_id"])):
+                    rec["bin1_id"] = [a for a, _ in new]
+                    rec["bin2_id"] = [b for _, b in new]
+                    op.update(file=f_, path=p_, mode="a", slash=rng.random() < 0.7)
+                    return op
     if not have or r < 0.7:
         fid = rng.choice(FILES[:1] if rng.random() < 0.7 else FILES)
         op = gen.gen_create(rng, maxpx=cfg.get("maxpx", 60), big64=True,
@@ -426,6 +445,11 @@ def gen_c08(rng, fs, i, cfg):
             for col, dt in op["dtypes"].items():
                 if "int" in dt:
                     ch[col] = [min(v, 1000) for v in ch[col]]
+        if ctx.setdefault("big", rng.random() < 0.08) and op["dtypes"].get("count") == "int32" and not ctx["bigsrc"]:
+            # counts near the int32 limit: a block sum that does not fit must be refused, never stored
+            # wrapped or clamped (sums of one pixel still fit, so some coarse pixels are fine)
+            for ch in op["chunks"]:
+                ch["count"] = [rng.randint(2**29, 2**30 + 2**29) if rng.random() < 0.6 else c_ for c_ in ch["count"]]
         fid = rng.choice(["f0", "f1"])
         path = "/s%d" % len(ctx["srcs"]) if rng.random() < 0.7 else "/"
         if path == "/" and fid in fs.files:
@@ -587,6 +611,16 @@ def gen_c09(rng, fs, i, cfg):
             bad = max(res) * 2 + 1
             while any(bad % b == 0 for b in res):
                 bad += 1
+            if len(res) >= 2 and rng.random() < 0.6:
+                # a multiple of the bases' common divisor that is a multiple of NO base (bases 4 and 6:
+                # 10, 14, 22): not derivable either
+                import math as _math
+                g = 0
+                for b in res:
+                    g = _math.gcd(g, int(b))
+                near = [g * k for k in range(2, 60) if g * k >= min(res) and all((g * k) % b for b in res)]
+                if near:
+                    bad = rng.choice(near[:6])
             targets.append(bad)
         elif rng.random() < 0.08 and min(res) > 1:
             # a non-derivable member finer than every base
@@ -840,8 +874,28 @@ def gen_c17(rng, fs, i, cfg):
                         c["form"] = "df"
                         if c.get("bin_extra"):
                             c["bin_extra"] = {"w": [gen.dyadic(rng, 0, 2) for _ in range(n2)]}
-        if op["mode"] == "w" and fid in fs.files and rng.random() < 0.0:
-            pass
+        elif ctx.get("made") and ctx.get("last_scool") is not None and rng.random() < 0.35 and not op.get("fault"):
+            # another single-cell file written by the same process over the SAME chromosomes (names and
+            # lengths) cut into ANOTHER number of bins: one bin split in two, or two bins joined
+            import copy as _copy
+            lay2 = _copy.deepcopy(ctx["last_scool"]["layout"])
+            lay2["kind"] = "variable"
+            for _try in range(4):
+                e = lay2["edges"][rng.randrange(len(lay2["edges"]))]
+                k = rng.randrange(len(e) - 1)
+                if e[k + 1] - e[k] >= 2 and rng.random() < 0.6:
+                    e.insert(k + 1, e[k] + (e[k + 1] - e[k]) // 2)
+                elif len(e) > 2:
+                    del e[rng.randrange(1, len(e) - 1)]
+            n2 = gen.nbins_of(lay2)
+            op["layout"] = lay2
+            for nm, c in op["cells"].items():
+                sup = gen.gen_support(rng, n2, op["symmetric"], None, 20)
+                rec = gen.pixels_record(sup, gen.gen_values(rng, len(sup), op["dtypes"]))
+                c["chunks"] = [rec]
+                c["form"] = "df"
+                if c.get("bin_extra"):
+                    c["bin_extra"] = {"w": [gen.dyadic(rng, 0, 2) for _ in range(n2)]}
         ctx["made"] = True
         if not op.get("fault"):
             ctx["last_scool"] = op
